@@ -604,6 +604,65 @@ func specRelNow(rep *RepData, wt wrapTimes, atoMS int) int {
 	return wt.nowRelMS*rep.MediaTimescale/1000 + atoMS*rep.MediaTimescale/1000
 }
 
+// implication forms (usable where the premise holds only on some paths)
+//@ lemma lemmaWrapsMonoImp
+//@   ensures  W >= 1 && 0 <= r1 && r1 < W && 0 <= r2 && r2 < W && w1*W+r1 <= w2*W+r2 ==> w1 <= w2 && (w1 == w2 ==> r1 <= r2)
+func lemmaWrapsMonoImp(w1, r1, w2, r2, W int) {}
+
+//@ lemma lemmaNrOrderImp
+//@   ensures  N >= 1 && 0 <= i1 && i1 < N && 0 <= i2 && i2 < N && (w1 < w2 || (w1 == w2 && i1 <= i2)) ==> w1*N+i1 <= w2*N+i2
+func lemmaNrOrderImp(w1, i1, w2, i2, N int) {}
+
+// lemmaEndMono: segment end times grow with the index.
+//@ lemma lemmaEndMono
+//@   ensures  wfRep(rep) && orderedRep(rep) && 0 <= i && i <= j && j < len(rep.Segments) ==> rep.Segments[i].EndTime <= rep.Segments[j].EndTime
+func lemmaEndMono(rep *RepData, i, j int) {}
+
+// lemmaMulMono / lemmaDivMono: the two monotonicity facts of integer arithmetic used below.
+//@ lemma lemmaMulMono
+//@   ensures  x <= y && c >= 0 ==> x*c <= y*c
+func lemmaMulMono(x, y, c int) {}
+
+//@ lemma lemmaDivMono
+//@   ensures  0 <= x && x <= y && d > 0 ==> x/d <= y/d
+func lemmaDivMono(x, y, d int) {}
+
+// specStartTicks: the instant "window start + availabilityTimeOffset" in media ticks since
+// availabilityStartTime, as the window arithmetic sees it.
+func specStartTicks(a *asset, rep *RepData, wt wrapTimes, atoMS int) int {
+	return wt.startWraps*wrapDurOf(a, rep) + wt.startRelMS*rep.MediaTimescale/1000 + atoMS*rep.MediaTimescale/1000
+}
+
+// lemmaTicksOrdered: the window start is not after now, also after the conversion to media ticks.
+//@ lemma lemmaTicksOrdered
+//@   requires a != nil && wfRep(rep) && loopExact(a, rep) && wfWrapTimes(a, wt)
+//@   use      lemmaWrapDurIsRepDur(a, rep)
+//@   use      lemmaWrapsMono(wt.startWraps, wt.startRelMS, wt.nowWraps, wt.nowRelMS, a.LoopDurMS)
+//@   ensures  specStartTicks(a, rep, wt, atoMS) <= specNowTicks(a, rep, wt, atoMS)
+func lemmaTicksOrdered(a *asset, rep *RepData, wt wrapTimes, atoMS int) {
+	ts := rep.MediaTimescale
+	W := wrapDurOf(a, rep)
+	sT := wt.startRelMS * ts / 1000
+	nT := wt.nowRelMS * ts / 1000
+	lemmaMulMono(wt.startRelMS, wt.nowRelMS, ts)
+	lemmaMulMono(0, wt.startRelMS, ts)
+	lemmaMulMono(0, wt.nowRelMS, ts)
+	if wt.startWraps == wt.nowWraps {
+		assert(wt.startRelMS <= wt.nowRelMS)
+		lemmaDivMono(wt.startRelMS*ts, wt.nowRelMS*ts, 1000)
+		assert(sT <= nT)
+	} else {
+		assert(wt.startWraps+1 <= wt.nowWraps)
+		// the remainder of the start is less than one loop, also in ticks
+		lemmaMulMono(wt.startRelMS, a.LoopDurMS, ts)
+		lemmaDivMono(wt.startRelMS*ts, a.LoopDurMS*ts, 1000)
+		assert(sT <= W)
+		lemmaMulMono(wt.startWraps+1, wt.nowWraps, W)
+		assert((wt.startWraps+1)*W == wt.startWraps*W+W)
+		assert(nT >= 0)
+	}
+}
+
 // lemmaGapFree: segment n+1 starts exactly where segment n ends, also across a loop wrap.
 //@ lemma lemmaGapFree
 //@   requires a != nil && wfRep(rep) && loopExact(a, rep) && 0 <= n
@@ -612,7 +671,20 @@ func specRelNow(rep *RepData, wt wrapTimes, atoMS int) int {
 //@   ensures  specStart(a, rep, n+1) == specEnd(a, rep, n)
 //@   ensures  specEnd(a, rep, n) == specStart(a, rep, n) + int(specDur(rep, n))
 //@   ensures  rep.Segments[0].StartTime == 0 ==> specStart(a, rep, n) == (n/len(rep.Segments))*repDur(rep) + int(rep.Segments[n%len(rep.Segments)].StartTime)
-func lemmaGapFree(a *asset, rep *RepData, n int) {}
+func lemmaGapFree(a *asset, rep *RepData, n int) {
+	N := len(rep.Segments)
+	W := wrapDurOf(a, rep)
+	if (n+1)%N == 0 {
+		// wrap: last segment of a loop is followed by the first of the next
+		assert(n%N == N-1 && (n+1)/N == n/N+1)
+		assert(specEnd(a, rep, n) == int(rep.Segments[N-1].EndTime)+(n/N)*W)
+		assert(specStart(a, rep, n+1) == (n/N+1)*W+int(rep.Segments[0].StartTime))
+		assert((n/N+1)*W == (n/N)*W+W)
+	} else {
+		assert((n+1)%N == n%N+1 && (n+1)/N == n/N)
+		assert(rep.Segments[n%N].EndTime == rep.Segments[n%N+1].StartTime)
+	}
+}
 
 // lemmaServedGapFree: the statement of C01 on the real function: consecutive numbers are
 // served with consecutive sequence numbers and abutting media intervals, from the VoD
@@ -729,12 +801,25 @@ func nrListed(entries []*m.S, n int) int {
 //@   ensures  first: result.startNr >= 0 ==> len(result.entries) >= 1 && result.entries[0] != nil && result.entries[0].T != nil
 //@   ensures  empty: result.startNr >= -1 && (result.startNr < 0 ==> len(result.entries) == 0)
 //@   ensures  runs: forall k in [0, len(result.entries)) :: result.entries[k] != nil && result.entries[k].R >= 0
+//@   ensures  newestEnded: result.lsi.nr >= 0 && a.Reps[repID].Segments[0].StartTime == 0 ==> specEnd(a, a.Reps[repID], result.lsi.nr) <= specNowTicks(a, a.Reps[repID], wt, atoMS) && specNowTicks(a, a.Reps[repID], wt, atoMS) < specEnd(a, a.Reps[repID], result.lsi.nr+1)
+//@   ensures  noneEndedYet: result.lsi.nr < 0 && a.Reps[repID].Segments[0].StartTime == 0 ==> specNowTicks(a, a.Reps[repID], wt, atoMS) < specEnd(a, a.Reps[repID], 0)
 //@   ensures  lastSegInfo: result.lsi.nr >= 0 ==> result.lsi.startTime == uint64(specStart(a, a.Reps[repID], result.lsi.nr)) && result.lsi.dur == specDur(a.Reps[repID], result.lsi.nr) && result.lsi.timescale == uint64(a.Reps[repID].MediaTimescale)
 //@   allocates
 //@   loop 1 use-entry lemmaDivMul(wt.startWraps, relStartIdx, nrSegs)
 //@   loop 1 use-entry lemmaDivMul(wt.nowWraps, relNowIdx, nrSegs)
 //@   loop 1 use-entry lemmaDivMulImp(wt.nowWraps, relNowIdx+1, nrSegs)
 //@   loop 1 use-entry lemmaDivMul(wt.nowWraps+1, 0, nrSegs)
+//@   loop 1 use-entry lemmaWrapsMonoImp(wt.startWraps, int(relStartTime), wt.nowWraps, int(relNowTime), int(wrapDur))
+//@   loop 1 use-entry lemmaWrapsMonoImp(wt.startWraps, int(relStartTime), wt.nowWraps+1, int(relNowTime), int(wrapDur))
+//@   loop 1 use-entry lemmaWrapsMonoImp(wt.startWraps+1, int(relStartTime), wt.nowWraps, int(relNowTime), int(wrapDur))
+//@   loop 1 use-entry lemmaWrapsMonoImp(wt.startWraps+1, int(relStartTime), wt.nowWraps+1, int(relNowTime), int(wrapDur))
+//@   loop 1 use-entry lemmaNrOrderImp(wt.startWraps, relStartIdx, wt.nowWraps, relNowIdx, nrSegs)
+//@   loop 1 use-entry lemmaEndMono(rep, relNowIdx+1, relStartIdx)
+//@   loop 1 invariant orderedInIn: relStartTime >= segs[0].EndTime && relNowTime >= segs[0].EndTime ==> se.startNr <= nowNr
+//@   loop 1 invariant orderedInPrev: relStartTime >= segs[0].EndTime && relNowTime < segs[0].EndTime ==> se.startNr <= nowNr
+//@   loop 1 invariant orderedPrevIn: relStartTime < segs[0].EndTime && relNowTime >= segs[0].EndTime ==> se.startNr <= nowNr
+//@   loop 1 invariant orderedPrevPrev: relStartTime < segs[0].EndTime && relNowTime < segs[0].EndTime ==> se.startNr <= nowNr
+//@   loop 1 invariant windowOrdered: se.startNr <= nowNr
 //@   loop 1 invariant nr <= nowNr+1 || nr == se.startNr+1
 //@   loop 1 invariant loopTicks: int(wrapDur) == wrapDurOf(a, rep) && relNowTime < wrapDur && nowNr == wt.nowWraps*nrSegs + relNowIdx && 0 <= relNowIdx && relNowIdx < nrSegs && wt.nowWraps >= 0
 //@   loop 1 invariant inLoop: relNowTime >= segs[0].EndTime ==> specNowTicks(a, rep, old(wt), atoMS) == wt.nowWraps*int(wrapDur) + int(relNowTime)
@@ -742,6 +827,13 @@ func nrListed(entries []*m.S, n int) int {
 //@   loop 1 invariant prevLoop: relNowTime < segs[0].EndTime ==> specNowTicks(a, rep, old(wt), atoMS) == (wt.nowWraps+1)*int(wrapDur) + int(relNowTime) && relNowIdx == nrSegs-1
 //@   store wt.nowWraps += requires nowLoopsFromNowRemainder: wt.nowWraps == old(wt).nowWraps + int(relNowTime / wrapDur) && relNowTime == uint64(old(wt).nowRelMS*rep.MediaTimescale/1000) + ato
 //@   store wt.startWraps += requires startLoopsFromStartRemainder: wt.startWraps == old(wt).startWraps + int(relStartTime / wrapDur) && relStartTime == uint64(old(wt).startRelMS*rep.MediaTimescale/1000) + ato
+//@   use      lemmaTicksOrdered(a, a.Reps[repID], wt, atoMS)
+//@   store relStartTime %= requires rolledStartUnchanged: specStartTicks(a, rep, old(wt), atoMS) == wt.startWraps*int(wrapDur) + int(relStartTime) && relStartTime < wrapDur
+//@   store relStartIdx := requires startSplit: specStartTicks(a, rep, old(wt), atoMS) == wt.startWraps*int(wrapDur) + int(relStartTime) && relStartTime < wrapDur
+//@   store relStartIdx = requires startLastFinishedOrWrap: relStartIdx == nrSegs-1 || relStartIdx == 0 || (relStartIdx >= -1 && relStartIdx < nrSegs && (relStartIdx >= 0 ==> segs[relStartIdx].EndTime <= relStartTime) && (relStartIdx+1 < nrSegs ==> segs[relStartIdx+1].EndTime > relStartTime))
+//@   store relNowTime := requires startInLoop: relStartTime >= segs[0].EndTime ==> specStartTicks(a, rep, old(wt), atoMS) == wt.startWraps*int(wrapDur) + int(relStartTime) && 0 <= relStartIdx && relStartIdx < nrSegs && segs[relStartIdx].EndTime <= relStartTime && (relStartIdx+1 < nrSegs ==> segs[relStartIdx+1].EndTime > relStartTime)
+//@   store relNowTime := requires startPrevLoop: relStartTime < segs[0].EndTime ==> (specStartTicks(a, rep, old(wt), atoMS) == (wt.startWraps+1)*int(wrapDur) + int(relStartTime) && relStartIdx == nrSegs-1) || (wt.startWraps == 0 && relStartIdx == 0)
+//@   store relNowTime := requires startWrapsNonNeg: wt.startWraps >= 0 && relStartTime < wrapDur && 0 <= relStartIdx && relStartIdx < nrSegs
 //@   store relNowTime %= requires nowRemainderReduced: relNowTime < wrapDur
 //@   store relNowTime %= requires rolledInstantUnchanged: specNowTicks(a, rep, old(wt), atoMS) == wt.nowWraps*int(wrapDur) + int(relNowTime)
 //@   store relNowIdx := requires instantSplit: specNowTicks(a, rep, old(wt), atoMS) == wt.nowWraps*int(wrapDur) + int(relNowTime) && relNowTime < wrapDur
@@ -759,6 +851,7 @@ func nrListed(entries []*m.S, n int) int {
 //@   exit 2 requires nextAfterWrapNr: relNowIdx+1 == nrSegs ==> (nowNr+1)/len(rep.Segments) == wt.nowWraps+1 && (nowNr+1)%len(rep.Segments) == 0
 //@   exit 2 requires nextAfterWrapEnd: relNowIdx+1 == nrSegs ==> specEnd(a, rep, nowNr+1) == int(segs[0].EndTime) + (wt.nowWraps+1)*int(wrapDur)
 //@   exit 2 requires nextAfterWrapHasNotEnded: segs[0].StartTime == 0 && relNowIdx+1 == nrSegs ==> specNowTicks(a, rep, old(wt), atoMS) < specEnd(a, rep, nowNr+1)
+//@   exit 2 requires edgeIsNowNr: lsi.nr == nowNr && se.startNr <= lsi.nr
 //@   exit 1 requires noneEnded: segs[0].StartTime == 0 ==> specNowTicks(a, rep, old(wt), atoMS) < specEnd(a, rep, 0)
 //@   loop 1 use-entry lemmaWrapDurIsRepDur(a, rep)
 //@   loop 1 use lemmaGapFree(a, rep, nr-1)
